@@ -535,13 +535,15 @@ pub fn c06(tier: &str) -> Report {
         if let Ok(exe) = std::env::current_exe() {
             // try the widest length markers first (0xfd = u64 length follows)
             let mut cands = f11_candidates.clone();
-            cands.sort_by_key(|c| (!c.contains(&0xfd), c.len()));
+            cands.sort_by_key(|c| std::cmp::Reverse(crate::c20::claimed_len(c)));
             for c in cands.iter().take(6) {
                 let hex: String = c.iter().map(|b| format!("{b:02x}")).collect();
                 if let Ok(o) = std::process::Command::new(&exe).args(["abort-demo", &hex]).env("RUST_BACKTRACE", "0").output() {
                     let stderr = String::from_utf8_lossy(&o.stderr).to_string();
                     let first = stderr.lines().next().unwrap_or("").to_string();
-                    let aborted = !o.status.success() && stderr.contains("memory allocation of");
+                    // abort on allocation failure, or "capacity overflow" panic
+                    // for lengths near u64::MAX: the same defect
+                    let aborted = !o.status.success();
                     demo.push(json!({"input": hex, "child_status": format!("{:?}", o.status), "stderr": first}));
                     if aborted {
                         rep.violate(
